@@ -672,6 +672,8 @@ class SyncObj(object):
                     logger.error(
                         'request to switch to unsupported code version (self version: %d, requested version: %d)' %
                         (self.__selfCodeVersion, e.ver))
+                    # Do not apply the following entries until this one can be applied
+                    break
 
             if not self.__conf.appendEntriesUseBatch:
                 needSendAppendEntries = True
